@@ -80,6 +80,8 @@ fn differing_component(a: &State, b: &State) -> &'static str {
 struct Gen {
     next: usize,
     live: Vec<(i64, String, String, i64)>,
+    /// signed net filled quantity per instrument of the history generated so far
+    net: [i64; world2::N_INST],
 }
 
 impl Gen {
@@ -145,7 +147,14 @@ impl Gen {
                 e
             }
             36..=41 => { let c = live(self, rng); engine_gen::ev("CancelResp", ex, inst, &c.1, "", "-", 0, rng.random_bool(0.5), "-", vec![], nf()) }
-            42..=55 => engine_gen::ev("Trade", ex, inst, "", "", if rng.random_bool(0.5) { "buy" } else { "sell" }, rng.random_range(1..=2), false, "-", vec![], nf()),
+            42..=55 => {
+                let side = if rng.random_bool(0.5) { "buy" } else { "sell" };
+                // now and then a fill of quantity ZERO while a position is open (a venue's "fee only" / dust report):
+                // it is a fill like any other for the engine and for the replica
+                let qty = if self.net[inst as usize] != 0 && rng.random_range(0..5) == 0 { 0 } else { rng.random_range(1..=2) };
+                self.net[inst as usize] += if side == "buy" { qty } else { -qty };
+                engine_gen::ev("Trade", ex, inst, "", "", side, qty, false, "-", vec![], nf())
+            }
             56..=60 => engine_gen::ev("Balance", rng.random_range(0..world2::N_EX as i64), 0, "", "", "-", rng.random_range(0..9), false, "-", vec![], nf()),
             61..=68 => engine_gen::ev("TradingState", 0, 0, "", "", "-", 0, false, if rng.random_bool(0.6) { "Enabled" } else { "Disabled" }, vec![], nf()),
             69..=76 => { let b = self.opens(rng, 3); engine_gen::ev("SendOpens", 0, 0, "", "", "-", 0, false, "-", b, nf()) }
@@ -206,7 +215,7 @@ fn main() {
         let ending = ["shutdown", "feed_end", "fatal", "fatal_algo"][(h / 3) % 4];
         let with_orders = (h / 12) % 2 == 0;
         let mut kit = new_kit(if rng.random_bool(0.5) { TradingState::Enabled } else { TradingState::Disabled });
-        let mut g = Gen { next: h * 1000, live: vec![] };
+        let mut g = Gen { next: h * 1000, live: vec![], net: [0; world2::N_INST] };
         // the scripted history
         let mut items: Vec<(Value, Value)> = (0..n_events).map(|_| (g.event(&mut rng), g.env(&mut rng, with_orders, false))).collect();
         // a deliberate burst in most histories: open -> confirmed open -> cancel sent -> a second open
